@@ -24,7 +24,9 @@ RULE = ('patterns: every string of length <= k over a 38-symbol alphabet of CSS-
         'names. Each: (1) PY outcome must be a compiled selector, SelectorSyntaxError, NotImplementedError, or KeyError for '
         'case-colliding custom names (the property itself); (2) PY outcome = Lean parser model outcome (same IR, or same '
         'raise site with the same line/column/context). Non-trivial = compiles, or fails at a site other than the '
-        'catch-all "invalid character".')
+        'catch-all "invalid character". (3) WHICH outcome: at-rules / pseudo-elements give NotImplementedError; a list of a '
+        'non-forgiving context (top level, :not, :matches, :has, of S) with an empty slot (nothing / gap / dangling combinator, '
+        'at any position) gives SelectorSyntaxError.')
 
 ALPHA = ['a', 'A', '1', '-', '_', ' ', '\n', '#', '.', ':', '[', ']', '(', ')', '=', '"', "'", '\\', '*', '|', ',', '>', '+', '~',
          '/', '@', '&', '!', '^', '$', 'n', 'p', '\x00', 'é', '\r', '{', '}', '%']
@@ -136,12 +138,60 @@ def which_error(rng, quick):
     return bad, n
 
 
+NONFORGIVING = ['%s', ':not(%s)', ':matches(%s)', ':has(%s)', 'p:has(%s)', 'a :has(%s) > b', ':is(p, :has(%s))', ':not(:has(%s))',
+                ':has(:not(%s))', ':nth-child(2 of %s)', ':where(:matches(%s))']
+FULL_ALTS = ['p', 'a b', '.x > i', '#k ~ [a]', ':is(,)', '*']
+REL_ALTS = ['> p', '+ a ~ b', '~ .x', '> :is(a, b)']
+EMPTY_SLOTS = ['', ' ', '/**/', '\n', ' /* c */ ']
+DANGLING = ['> ', '+', ' ~ ', 'p > ', 'a b + ', '.x~']
+
+
+def gen_empty_slots(rng, quick):
+    """Selector lists of the NON-forgiving contexts (top level, `:not()`, `:matches()`, `:has()`, `of S`) in which one slot is
+    empty: nothing / white space / a comment, or only a dangling combinator -- at the first, a middle or the last position.
+    CSS has no empty alternative outside the forgiving `:is()` / `:where()`; every such pattern must be rejected with
+    SelectorSyntaxError (the relation "`:has(, A)` never compiles, as `:has(A, )`, `:not(, A)`, `, A` never do")."""
+    out = []
+    for ctx in NONFORGIVING:
+        rel = ':has(%s)' in ctx
+        for n in (1, 2, 3):
+            for pos in range(n):
+                for _ in range(3 if quick else 12):
+                    slots = []
+                    for i in range(n):
+                        if i == pos:
+                            e = rng.choice(EMPTY_SLOTS + EMPTY_SLOTS + DANGLING)
+                            if not rel and n == 1 and not e.strip(' \n') and ctx == '%s':
+                                e = rng.choice(DANGLING)      # the empty pattern itself is covered by the exhaustive part
+                            slots.append(e)
+                        else:
+                            slots.append(rng.choice(FULL_ALTS + (REL_ALTS if rel else [])))
+                    sep = rng.choice([',', ', ', ' , ', ',\n'])
+                    out.append(ctx % sep.join(slots))
+    return sorted(set(out))
+
+
+def empty_slot_errors(pats):
+    bad = []
+    for pat in pats:
+        try:
+            sv.compile(pat)
+            got = 'compiled'
+        except Exception as e:      # noqa: BLE001
+            got = type(e).__name__
+        if got != 'SelectorSyntaxError':
+            bad.append({'pattern': pat, 'exception': got, 'expected': 'SelectorSyntaxError', 'kind': 'empty alternative in a non-forgiving list'})
+    return bad
+
+
 def run(chk):
     proof_ok = framework.lean_pipeline(chk, SOURCES)
     driver_ok = proof_ok or chk.build(['svdriver'])[0]
     rng = random.Random(chk.seed)
     quick = chk.tier == 'quick'
-    cases = [(p, None, 0) for p in gen_patterns(rng, quick)] + [(p, cm, 0) for p, cm in gen_customs(rng, quick)]
+    slot_pats = gen_empty_slots(random.Random(chk.seed ^ 0x51), quick)
+    cases = ([(p, None, 0) for p in gen_patterns(rng, quick)] + [(p, None, 0) for p in slot_pats]
+             + [(p, cm, 0) for p, cm in gen_customs(rng, quick)])
     py_bad, corr_bad = [], []
     from collections import Counter
     outcome = Counter()
@@ -181,7 +231,12 @@ def run(chk):
     for i, b in enumerate(we_bad[:3]):
         chk.violation(f'which{i}', {'what': 'an at-rule / pseudo-element is not reported with the documented NotImplementedError', **b},
                       concrete=True)
-    py_bad = py_bad + we_bad
+    es_bad = empty_slot_errors(slot_pats)
+    chk.coverage['empty_slot_patterns'] = len(slot_pats)
+    for i, b in enumerate(es_bad[:3]):
+        chk.violation(f'slot{i}', {'what': 'a selector list outside :is()/:where() with an empty alternative compiled (or raised something other '
+                                           'than SelectorSyntaxError)', **b}, concrete=True)
+    py_bad = py_bad + we_bad + es_bad
     for i, b in enumerate([b for b in py_bad if 'expected' not in b][:5]):
         chk.violation(f'py{i}', {'what': 'compile() raised an exception that is not documented for this input', **b}, concrete=True)
     if not py_bad:
